@@ -33,6 +33,7 @@ def gen_case(rng, eq):
         # population k is called names[k]: any key layout, the other populations listed in any (not necessarily sorted) order
         names = rng.sample(["0", "1", "2", "9", "10", "a", "b", "B", "prey", "z"], m)
         c.update(names=names)
+        c["u0"] = [rng.choice([0.5, 1.0, 2.0]) for _ in range(m)]      # every network reads its own equation parameter "u0" (a scale)
         # positive polynomials of t on [0, 1]
         polys = [{(0,): rng.randint(2, 5), (1,): rng.randint(0, 3), (2,): rng.randint(0, 2)} for _ in range(m)]
         c.update(d=0, polys=polys, pt=[rng.randint(0, 4) / 4], nus=[dy(rng), dy(rng)] + [dy(rng) for _ in range(m)],
@@ -74,12 +75,15 @@ def evaluate(c):
     if eq == "glv":
         m = len(c["polys"])
         nm = c.get("names") or [str(k) for k in range(m)]
-        us = {nm[k]: mk([c["polys"][k]], "ODE") for k in range(m)}
-        main = {"growth_rate": A(nus[0]), "carrying_capacity": A(nus[1]), "interactions": jnp.array(nus[2:2 + m])}
+        u0 = c.get("u0") or [1.0] * m
+        if c["shared_params"]:
+            u0 = [u0[0]] * m                                  # one shared parameter set: one shared scale
+        us = {nm[k]: mk([c["polys"][k]], "ODE", output_transform=lambda i, o, p: o * p.eq_params["u0"]) for k in range(m)}
+        main = {"growth_rate": A(nus[0]), "carrying_capacity": A(nus[1]), "interactions": jnp.array(nus[2:2 + m]), "u0": A(u0[0])}
         if c["shared_params"]:
             eqp = main
         else:
-            eqp = {nm[k]: (main if k == 0 else {"growth_rate": A(9.0), "carrying_capacity": A(9.0), "interactions": jnp.ones((m,)) * 9.0}) for k in range(m)}
+            eqp = {nm[k]: (main if k == 0 else {"growth_rate": A(9.0), "carrying_capacity": A(9.0), "interactions": jnp.ones((m,)) * 9.0, "u0": A(u0[k])}) for k in range(m)}
         PD = ParamsDict(nn_params={k: u.init_params() for k, u in us.items()}, eq_params=eqp)
         L = jinns.loss.GeneralizedLotkaVolterra(key_main=nm[0], keys_other=[nm[k] for k in range(1, m)], Tmax=c["tmax"])
         return [float(v) for v in np.asarray(L.evaluate(jnp.array([pt[0]]), us, PD)).ravel()]
@@ -97,6 +101,9 @@ def evaluate(c):
 
 
 def case_term(cid, c, obs):
+    if c["eq"] == "glv" and c.get("u0"):       # population k is u0_k * polynomial_k (u0 shared when the parameters are)
+        u0 = [c["u0"][0]] * len(c["polys"]) if c["shared_params"] else c["u0"]
+        c = dict(c, polys=[{es: v * s for es, v in p.items()} for p, s in zip(c["polys"], u0)])
     if c.get("het"):          # inside the equation the growth rate is r * profile(x) at the evaluation point
         from poly import peval
         c = dict(c, nus=[c["nus"][0], c["nus"][1] * peval(c["het"], c["pt"][1:]), c["nus"][2]])
